@@ -21,7 +21,7 @@ PF_SLOTS = ['i', 'l', 'x', 'z', 'fn', 'p']
 # filter 3 also hides a section (its whole subtree must disappear)
 FILTERS = {1: [b'x', b'z'], 2: [b'l', b's', b'n', b'z'], 3: [b'i', b'm', b'l']}
 STATES = [b'', b'sub { m { } m { z = 4 l = {7} } x = 9 } mt a { dx = 2 } mt b { x = 2 sub { z = 5 } } n = 3 sn = "set" dx = 3 dxl = {4} dep = 7',
-          b'l = {} mt a { } sub { m { } }', b'p = pv l = {3} fn(a)']
+          b'l = {} mt a { } sub { m { } } e0 u { } e0 v { }', b'p = pv l = {3} fn(a)']
 
 
 def schema(pfset):
@@ -32,7 +32,9 @@ def schema(pfset):
         Opt('sec', 'sub', '', sub=[Opt('int', 'x', '', 1, r('x')), Opt('str', 's', '', b'q'),
                                    Opt('sec', 'm', 'M', sub=[Opt('int', 'z', '', 3, r('z')), Opt('int', 'l', 'L')]), Opt('int', 'n', 'N')]),
         Opt('sec', 'mt', 'MT', sub=[Opt('int', 'x', '', 1, r('x')), Opt('sec', 'sub', '', sub=[Opt('int', 'z', '', 2, r('z'))]), Opt('int', 'dx', 'DX', 5)]),
-        Opt('int', 'dx', 'DX', 5), Opt('int', 'dxl', 'LDX', [b'1']), Opt('int', 'dep', 'D', 6)])      # deprecated options, some dropped when the text names them: options like any other to print
+        Opt('int', 'dx', 'DX', 5), Opt('int', 'dxl', 'LDX', [b'1']), Opt('int', 'dep', 'D', 6),
+        # sections that declare no option at all: each instance is still an instance and is written once (header and empty body)
+        Opt('sec', 'e1', '', sub=[]), Opt('sec', 'e0', 'MT', sub=[])])      # deprecated options, some dropped when the text names them: options like any other to print
 
 
 # ---- refprint
